@@ -7,7 +7,8 @@
  * Write faults (independent of the kill): C09_FAULT_AT=<n> C09_FAULT_MODE=
  *    bitflip : numbered write n stores the buffer with one bit inverted (middle byte) and reports success
  *    shorten : it stores all but the last byte and reports the full count (silent truncation)
- *    enospc / eio : it stores nothing and fails with that errno
+ *    enospc / eio : it stores nothing and fails with that errno; on any other numbered call (open, fsync, close, rename, unlink):
+ *                   the call is not performed and fails with that errno (a content copy on a full / failing disk)
  * time() reports C09_FAKE_TIME when set, and statfs() then reports fixed total/free block counts (the content file records the
  * free space of every disk), so that a killed run and its un-killed twin write the same bytes.
  *
@@ -180,6 +181,16 @@ static void after(long n)
 		die("after", n);
 }
 
+/* enospc / eio on a numbered call that is not a write: the call is not performed and fails */
+static int fails_here(long n)
+{
+	if (n > 0 && n == fault_at && (fault_mode == 3 || fault_mode == 4)) {
+		errno = fault_mode == 3 ? ENOSPC : EIO;
+		return 1;
+	}
+	return 0;
+}
+
 static int is_writing(int flags)
 {
 	return (flags & (O_CREAT | O_TRUNC)) != 0 || (flags & O_ACCMODE) != O_RDONLY;
@@ -211,6 +222,14 @@ static int open_common(int kind, int dirfd, const char* path, int flags, mode_t 
 	wr = is_writing(flags);
 	if (wr)
 		n = number();
+	if (fails_here(n)) {
+		int e = errno;
+		logf_("%ld open %s FAULT%d = -1\n", n, path, fault_mode);
+		after(n);
+		errno = e;
+		pthread_mutex_unlock(&mu);
+		return -1;
+	}
 	switch (kind) {
 	case 0 : r = r_open(path, flags, mode); break;
 	case 1 : r = r_open64(path, flags, mode); break;
@@ -404,6 +423,14 @@ static int fd_call(int kind, int fd, off_t len)
 	}
 	pthread_mutex_lock(&mu);
 	n = number();
+	if (fails_here(n)) {
+		e = errno;
+		logf_("%ld %s %s FAULT%d = -1\n", n, names[kind], fd_path[fd], fault_mode);
+		after(n);
+		errno = e;
+		pthread_mutex_unlock(&mu);
+		return -1;
+	}
 	switch (kind) {
 	case 0 : r = r_fsync(fd); break;
 	case 1 : r = r_fdatasync(fd); break;
@@ -470,6 +497,17 @@ int close(int fd)
 	pthread_mutex_lock(&mu);
 	if (fd_wr[fd])
 		n = number();
+	if (fails_here(n)) {
+		e = errno;
+		r_close(fd);
+		logf_("%ld close %s w FAULT%d = -1\n", n, fd_path[fd], fault_mode);
+		free(fd_path[fd]);
+		fd_path[fd] = 0;
+		after(n);
+		errno = e;
+		pthread_mutex_unlock(&mu);
+		return -1;
+	}
 	r = r_close(fd);
 	e = errno;
 	logf_("%ld close %s %s = %d\n", n, fd_path[fd], fd_wr[fd] ? "w" : "r", r);
@@ -491,6 +529,14 @@ int rename(const char* from, const char* to)
 		return r_rename(from, to);
 	pthread_mutex_lock(&mu);
 	n = number();
+	if (fails_here(n)) {
+		e = errno;
+		logf_("%ld rename %s %s FAULT%d = -1\n", n, from, to, fault_mode);
+		after(n);
+		errno = e;
+		pthread_mutex_unlock(&mu);
+		return -1;
+	}
 	r = r_rename(from, to);
 	e = errno;
 	logf_("%ld rename %s %s = %d\n", n, from, to, r);
@@ -508,6 +554,14 @@ static int unlink_common(int kind, const char* path)
 		return kind ? r_remove(path) : r_unlink(path);
 	pthread_mutex_lock(&mu);
 	n = number();
+	if (fails_here(n)) {
+		e = errno;
+		logf_("%ld unlink %s FAULT%d = -1\n", n, path, fault_mode);
+		after(n);
+		errno = e;
+		pthread_mutex_unlock(&mu);
+		return -1;
+	}
 	r = kind ? r_remove(path) : r_unlink(path);
 	e = errno;
 	logf_("%ld unlink %s = %d%s\n", n, path, r, (r != 0 && e == ENOENT) ? " ENOENT" : "");
